@@ -284,6 +284,12 @@ class Check:
             running = still
             if running:
                 time.sleep(0.05)
+        try:
+            import resource
+            self.cov["max_rss_mb_of_a_child_process"] = max(self.cov.get("max_rss_mb_of_a_child_process", 0),
+                                                            resource.getrusage(resource.RUSAGE_CHILDREN).ru_maxrss // 1024)
+        except Exception:
+            pass
         return res
 
     # ---------------------------------------------------------------- reporting
